@@ -260,7 +260,8 @@ def dstepCore (st : DState) (line : String) : DState × Option String :=
     | some c, some acct =>
       -- the state change is `Op.create` of the instance model (what the history theorems speak about)
       ({ st with inst := (step st.inst (.create c acct acct.toUTF8.toList)).1 },
-       some (if (createAccount st.inst.cfg c acct acct.toUTF8.toList).isSome then "ok" else "err"))
+       -- (the reply names the account as it now exists: the requested path, character for character)
+       some (if (createAccount st.inst.cfg c acct acct.toUTF8.toList).isSome then "ok " ++ hex acct.toUTF8.toList else "err"))
     | _, _ => bad st line
   -- wallet manager: lock / unlock a wallet (permission on the wallet name, the wallet must exist); no effect on listings
   | ["lockwallet", c, wn] =>
